@@ -219,3 +219,19 @@ Example C07_fill_slots_example :
     Some (card7 (Some [NText (bs "<b>"); NPrint (XVar (bs "i")); NText (bs "</b>")])) /\
   fill_slots (card7 None) [(bs "nosuch", [])] = None.
 Proof. split; reflexivity. Qed.
+
+(* ---- every use is independent, on the specification (Proofs/SpecScopes.v): a use leaves the scope
+   chain exactly as it was, so two uses in a row render what each renders alone from the same scopes *)
+From TW Require Import SpecMono ReserveSplice SpecScopes.
+
+Theorem C07_a_use_restores_the_scopes f sc n cid args body o s sc' :
+  sc <> [] -> run_node model_call_spec f sc (NComponent n cid args body) = TOk o s sc' -> sc' = sc /\ s = SigNormal.
+Proof. exact (component_use_restores_the_scopes f sc n cid args body o s sc'). Qed.
+Print Assumptions C07_a_use_restores_the_scopes.
+
+Theorem C07_uses_are_independent sc n1 c1 a1 b1 n2 c2 a2 b2 o1 s1 sc1 o2 s2 sc2 :
+  sc <> [] ->
+  RunsToN sc (NComponent n1 c1 a1 b1) (TOk o1 s1 sc1) -> RunsToN sc (NComponent n2 c2 a2 b2) (TOk o2 s2 sc2) ->
+  RunsTo sc [NComponent n1 c1 a1 b1; NComponent n2 c2 a2 b2] (TOk (o1 ++ o2) SigNormal sc).
+Proof. exact (uses_are_independent sc n1 c1 a1 b1 n2 c2 a2 b2 o1 s1 sc1 o2 s2 sc2). Qed.
+Print Assumptions C07_uses_are_independent.
